@@ -18,19 +18,20 @@ TRUSTED_BASE = ["coqc 8.16.1 kernel (vm_compute for table lemmas and witnesses; 
                 "Extraction + ExtrOcamlBasic, ocamlfind ocamlopt 4.13.1, coq/driver/main.ml",
                 "harness pdfh (Rust; canonical Op codec in harness/src/modes/content.rs), tools/vplib",
                 "tools/oracle/optable.py: ISO 32000-1 Annex A table, reference tokenizer, exact binary32 rounding/printing"]
-ASSUMPTIONS = ["premise of C08_roundtrip: the lexer/parser (pdf/src/parser, modelled by the owner of C03/C04) reads back the operands "
-               "content.rs writes: lex (render ts) = Ok ts for token lists whose operands are regular names, i32 integers, reals with "
-               "a decimal point, strings (tested on every ops_roundtrip case)",
-               "Rust f32 Display prints the shortest round-trip decimal and str::parse::<f32> rounds to nearest "
+ASSUMPTIONS = ["Rust f32 Display prints the shortest round-trip decimal and str::parse::<f32> rounds to nearest "
                "(tools/oracle/optable.py reproduces both exactly; compared with the implementation on every case)",
-               "negative zero is judged by value (-0 = 0) in the correspondence and excluded from the syntactic theorems"]
+               "negative zero is judged by value (-0 = 0) in the spec comparison and excluded from the syntactic theorems",
+               "the data of a filtered inline image is compared after decoding the model's raw bytes with tools/oracle/codecs.py"]
 RULE = ("sequences of 0-40 operations over all 44 writable constructors with adjacency bias (every shorthand pair/triple and its "
         "near misses; all ordered pairs of constructors and all shorthand-relevant triples in thorough), operands: boundary and random "
         "finite reals, regular names, strings of any bytes, property lists; each sequence through ops_serialize (bytes judged by the "
         "reference content-stream reader and compared with the model), ops_roundtrip and ops_content (must return the sequence); "
         "every ISO Annex A keyword with generated operands, with one operand too many and one too few, followed by a probe operator "
         "(ops_parse: judged by the ISO table, compared with the model on the token list); random ISO operator streams with the "
-        "standard's current-point rules; inline images; non-trivial = at least one operation with an operand; distinct by case line")
+        "standard's current-point rules; inline images (plain, filtered AHx/A85/RL/Fl incl. chains and Indexed colour spaces, malformed "
+        "dictionaries, damaged ID / EI, cut streams); every ops_parse case again as ops_parse_bytes (the model reads the bytes: token "
+        "loop on the shared lexer / parser models); byte-level damage to well-formed streams (never a panic, same answer as the "
+        "model); ops_roundtrip compared with the model (ser_ops then parse_bytes); non-trivial = at least one operation with an operand; distinct by case line")
 CASE_TIMEOUT = 10.0
 
 WRITABLE = [c for c in T.SHAPES if c != "InlineImage"]
